@@ -81,6 +81,11 @@ theorem zip_map_same {β γ δ : Type} (l : List β) (a : β → γ) (b : β →
   | nil => rfl
   | cons x t ih => simp [ih]
 
+theorem foldl_body_ext {β σ : Type} {g h : σ → β → σ} (hgh : ∀ s x, g s x = h s x) (l : List β) (init : σ) :
+    l.foldl g init = l.foldl h init := by
+  have : g = h := by funext s x; exact hgh s x
+  rw [this]
+
 /-- `enumerate(labels)` pairs every label with its position -/
 theorem enumerate_map_snd (labels : List Int) : (Py.enumerate labels).map (fun (p : Int × Int) => p.2) = labels := by
   unfold Py.enumerate
@@ -103,13 +108,13 @@ theorem compute_log_likelihood_by_cluster_eq (pointLL : Py.Arr1 α → Int → I
   rw [hinit]
   unfold Py.forEach
   set f : Int × Int → α := fun it => pointLL (Py.Arr2.row data it.1) it.2 W (Py.trueDiv (Py.Arr2.shape1 data) W) with hf
-  have hbody : (fun (s : List (List α)) (x : Int × Int) =>
-      (if decide (x.2 = (-1 : Int)) = true then s
-       else Py.setItem s x.2 (Py.append (Py.getItem s x.2)
-         (pointLL (Py.Arr2.row data x.1) x.2 W (Py.trueDiv (Py.Arr2.shape1 data) W)))))
-      = (fun st it => listsBody f it st) := by
-    funext s x; rfl
-  rw [hbody]
+  -- the loop body, whichever way the source spells the guard (`if c: continue` / `if not c:`), is `listsBody`
+  rw [foldl_body_ext (h := fun st it => listsBody f it st)]
+  swap
+  · intro s x
+    show _ = listsBody f x s
+    unfold listsBody
+    by_cases hx : x.2 = -1 <;> simp [hx, hf]
   have hpts : ∀ p ∈ Py.enumerate labels, -1 ≤ p.2 ∧ p.2 < (K : Int) := by
     intro p hp
     have : p.2 ∈ (Py.enumerate labels).map (fun (q : Int × Int) => q.2) := List.mem_map_of_mem hp
